@@ -6,10 +6,10 @@ package ops
 
 import (
 	"fmt"
-	"os"
-	"strings"
 	"math/big"
 	"math/rand"
+	"os"
+	"strings"
 	"time"
 
 	sdkmath "cosmossdk.io/math"
@@ -68,17 +68,17 @@ type Step struct {
 	Via    string            `json:"via,omitempty"` // evm / cosmos / keeper / block
 
 	// typed fields for monitors (not serialised)
-	Staker   *Staker     `json:"-"`
-	Oper     *Oper       `json:"-"`
-	Asset    *Asset      `json:"-"`
-	Amount   sdkmath.Int `json:"-"`
-	Pre      *sim.Snap   `json:"-"`
-	Post     *sim.Snap   `json:"-"`
-	Extra    interface{} `json:"-"`
-	EndBlock *abci.ResponseEndBlock `json:"-"`
+	Staker   *Staker                 `json:"-"`
+	Oper     *Oper                   `json:"-"`
+	Asset    *Asset                  `json:"-"`
+	Amount   sdkmath.Int             `json:"-"`
+	Pre      *sim.Snap               `json:"-"`
+	Post     *sim.Snap               `json:"-"`
+	Extra    interface{}             `json:"-"`
+	EndBlock *abci.ResponseEndBlock  `json:"-"`
 	TxRes    *abci.ResponseDeliverTx `json:"-"`
-	TxBytes  []byte `json:"-"`
-	Eth      *sim.EthResult `json:"-"`
+	TxBytes  []byte                  `json:"-"`
+	Eth      *sim.EthResult          `json:"-"`
 }
 
 // Monitor observes steps.
@@ -100,8 +100,8 @@ type World struct {
 	Last     *sim.Snap
 	Dt       time.Duration
 	// KeepSnaps: keep Pre/Post on recorded steps (memory heavy); default false => dropped after monitors ran.
-	KeepSnaps bool
-	Dead      bool // a panic escaped BeginBlock/EndBlock/Commit
+	KeepSnaps     bool
+	Dead          bool   // a panic escaped BeginBlock/EndBlock/Commit
 	ConsensusHalt string // CometBFT-side validation refused a validator update list
 	MonitorPanics []string
 	// IgnoreValSetErr: keep driving the application after the consensus-side model refused an update list
@@ -563,19 +563,22 @@ func Position(l *sim.Ledger, stakerID, assetID, operator string) sdkmath.Int {
 	return sdkmath.NewIntFromBigInt(num.Quo(num, p.TotalShare.BigInt()))
 }
 
+// StakingCommission is the commission every run-time operator registers with.
+func StakingCommission() stakingtypes.Commission { return stakingCommission() }
+
 func stakingCommission() stakingtypes.Commission {
 	return stakingtypes.NewCommission(sdk.ZeroDec(), sdk.OneDec(), sdk.OneDec())
 }
 
 // AVSSpec describes an AVS registered through the precompile by an EOA acting as the AVS contract.
 type AVSSpec struct {
-	Owner      *sim.Account // the EOA that is the AVS address and its owner
-	Name       string
-	Assets     []string
-	MinSelf    uint64
-	EpochID    string
-	Unbonding  uint64
-	TaskAddr   common.Address
+	Owner     *sim.Account // the EOA that is the AVS address and its owner
+	Name      string
+	Assets    []string
+	MinSelf   uint64
+	EpochID   string
+	Unbonding uint64
+	TaskAddr  common.Address
 }
 
 // RegisterAVS registers an AVS through the AVS precompile; the AVS address is the caller (an EOA here).
